@@ -2,6 +2,7 @@ import PV.Model.Fields
 import PV.Model.Murmur
 import PV.Spec.Fields
 import PV.Lemmas.Fields
+import PV.Model.Tools
 /-
 C10 — field keys depend only on the selected fields (cut -f semantics).
 Property theorems only; helper lemmas live in PV/Lemmas/Fields.lean.
@@ -48,6 +49,22 @@ theorem selected_difference_changes_pieces (l1 l2 : List UInt8) (ranges : List F
   intro he
   obtain ⟨f, hf, hne⟩ := hne
   exact hne ((pieces_iff_selected_equal l1 l2 ranges delim h h1 h2).mp he f hf)
+
+/-- A selected field that is present but EMPTY must count: the three tools hash the pieces as a chain of MurmurHash64A, and an
+    empty piece changes the chain state iff the state is not a fixed point of hashing "".  The start values of today's source
+    (dedupe -f, shard, cache; regenerated constants) are not such fixed points … -/
+theorem empty_first_field_counts :
+    PV.Murmur.hashPieces (PV.Tools.seedOf PV.Gen.dedupeFieldSeed) [[]] ≠ PV.Tools.seedOf PV.Gen.dedupeFieldSeed ∧
+    PV.Murmur.hashPieces (PV.Tools.seedOf PV.Gen.shardSeed) [[]] ≠ PV.Tools.seedOf PV.Gen.shardSeed ∧
+    PV.Murmur.hashPieces (PV.Tools.seedOf PV.Gen.cacheSeed) [[]] ≠ PV.Tools.seedOf PV.Gen.cacheSeed := by
+  decide +kernel
+
+/-- … whereas 0 is (cache started there until 331adfa): from seed 0 an empty first piece is invisible whatever follows, so
+    `cache -k 1,2` gave "\tx" (pieces "", "x") the key of "x" (piece "x") and answered one with the other's cached line. -/
+theorem empty_first_piece_invisible_from_seed_zero (ps : List (List UInt8)) :
+    PV.Murmur.hashPieces 0 ([] :: ps) = PV.Murmur.hashPieces 0 ps := by
+  have h : PV.Murmur.hash64A [] 0 = 0 := by decide +kernel
+  simp [PV.Murmur.hashPieces, h]
 
 /-- ParseFields accepts exactly the cut LIST grammar over the characters `0-9 , -` and reads it
     as cut does: malformed lists (field 0, decreasing range, missing separator, empty list or
